@@ -17,8 +17,8 @@ from models import lin
 ID = "C13"
 ENGINE = "threadsim"
 LEVEL = "exploration"
-TIERS = {"quick": {"runs": 30000, "timeout": 900}, "thorough": {"runs": 900000, "timeout": 7200,
-                                                               "lane_timeout": 1500}}
+TIERS = {"quick": {"runs": 30000, "timeout": 3600, "lane_timeout": 1800}, "thorough": {"runs": 900000, "timeout": 21600,
+                                                               "lane_timeout": 10800}}
 EST_STEPS = [80, 250, 700]
 P_OPCODE = 0.1
 P_JUMP = [0.0, 0.0, 0.02, 0.1]
